@@ -687,6 +687,33 @@ fn sweep_literals(rep: &mut Report, len: usize) {
                     if !s.starts_with('+') {
                         if let Some(x) = single_num(&im) {
                             la.viol.push((s.clone(), format!("is not a documented number form but is read as the number {x:e}")));
+                            continue;
+                        }
+                    }
+                    // a maximal run of digits, `_` and `.` that contains a digit is one number token or
+                    // an error: if the run is not a documented number form, the input must be rejected
+                    // (never silently split into two numbers)
+                    if im.is_ok() {
+                        let cs: Vec<char> = s.chars().collect();
+                        let mut i = 0;
+                        while i < cs.len() {
+                            if cs[i].is_ascii_digit() || cs[i] == '.' || cs[i] == '_' {
+                                let mut j = i;
+                                while j < cs.len() && (cs[j].is_ascii_digit() || cs[j] == '.' || cs[j] == '_') {
+                                    j += 1;
+                                }
+                                let run: String = cs[i..j].iter().collect();
+                                // runs after a letter are part of an identifier or a based literal, a leading
+                                // `_` makes an identifier, a lone `.` is field access
+                                let after_letter = i > 0 && cs[i - 1].is_ascii_alphabetic();
+                                if !after_letter && !run.starts_with('_') && run.chars().any(|c| c.is_ascii_digit()) && literal_value(&run).is_none() {
+                                    la.viol.push((s.clone(), format!("contains the run `{run}`, which is not a documented number form, but is accepted as {}", im.as_ref().unwrap())));
+                                    break;
+                                }
+                                i = j;
+                            } else {
+                                i += 1;
+                            }
                         }
                     }
                 }
